@@ -20,6 +20,7 @@
 
 #include <cstdio>
 #include <cstdlib>
+#include <cstring>
 #include <string>
 #include <unordered_map>
 #include <vector>
@@ -350,6 +351,132 @@ inline void codec_passthrough(const std::deque<int> &data, FILE *pfout)
       write_char(ch);
    }
 }
+
+
+//! UNC_VERIF_LISTOPS=<file>: drives the chunk list through the public interface of class Chunk (CopyAndAdd, Delete,
+//! MoveAfter, Swap, SwapLines), one scenario per line of <file>, operations separated by ';':
+//!   A o r nl cnt | B o r nl cnt | D x | M x r | S a b | L a b      (chunk numbers; 0 is the null chunk)
+//! and prints, per scenario, the walk from the head along GetNext() and the walk from the tail along GetPrev().
+inline bool listops_requested()
+{
+   const char *p = getenv("UNC_VERIF_LISTOPS");
+
+   return(  p != nullptr
+         && *p != 0);
+}
+
+
+inline int listops_run()
+{
+   FILE *f = fopen(getenv("UNC_VERIF_LISTOPS"), "r");
+
+   if (f == nullptr)
+   {
+      return(1);
+   }
+   static char line[1 << 16];
+
+   while (fgets(line, sizeof(line), f) != nullptr)
+   {
+      std::vector<Chunk *> ids(1, Chunk::NullChunkPtr);
+      char                 *save = nullptr;
+
+      for (char *tok = strtok_r(line, ";\n", &save); tok != nullptr; tok = strtok_r(nullptr, ";\n", &save))
+      {
+         char     k = 0;
+         unsigned a = 0, b = 0, c = 0, d = 0;
+         int      n = sscanf(tok, " %c %u %u %u %u", &k, &a, &b, &c, &d);
+
+         if (  k == 'A'
+            || k == 'B')
+         {
+            if (  n != 5
+               || a != ids.size()
+               || b >= ids.size())
+            {
+               continue;
+            }
+            Chunk tmp;
+            tmp.SetType(c ? CT_NEWLINE : CT_WORD);
+            tmp.SetNlCount(d);
+            tmp.SetOrigLine(a);
+            tmp.SetOrigCol(1);
+            tmp.SetPpLevel(0);
+            tmp.Str() = c ? "" : "x";
+            ids.push_back((k == 'A') ? tmp.CopyAndAddAfter(ids[b]) : tmp.CopyAndAddBefore(ids[b]));
+            continue;
+         }
+
+         if (  n < 2
+            || a == 0
+            || a >= ids.size()
+            || ids[a] == Chunk::NullChunkPtr)
+         {
+            continue;
+         }
+
+         if (k == 'D')
+         {
+            Chunk::Delete(ids[a]);
+            continue;
+         }
+
+         if (  n < 3
+            || b == 0
+            || b >= ids.size()
+            || ids[b] == Chunk::NullChunkPtr)
+         {
+            continue;
+         }
+
+         if (k == 'M')
+         {
+            ids[a]->MoveAfter(ids[b]);
+         }
+         else if (k == 'S')
+         {
+            ids[a]->Swap(ids[b]);
+         }
+         else if (k == 'L')
+         {
+            ids[a]->SwapLines(ids[b]);
+         }
+      }
+
+      size_t guard = 0;
+
+      printf("F");
+
+      for (Chunk *pc = Chunk::GetHead(); pc->IsNotNullChunk() && guard < 100000; pc = pc->GetNext(), guard++)
+      {
+         printf(" %zu:%zu", pc->GetOrigLine(), pc->GetNlCount());
+      }
+
+      printf(" | R");
+      guard = 0;
+
+      for (Chunk *pc = Chunk::GetTail(); pc->IsNotNullChunk() && guard < 100000; pc = pc->GetPrev(), guard++)
+      {
+         printf(" %zu", pc->GetOrigLine());
+      }
+
+      printf("\n");
+      // chunks that an operation has unlinked without deleting them are still owned by ids
+      std::vector<Chunk *> linked;
+
+      for (Chunk *pc = Chunk::GetHead(); pc->IsNotNullChunk() && linked.size() < 100000; pc = pc->GetNext())
+      {
+         linked.push_back(pc);
+      }
+
+      for (Chunk *pc : linked)
+      {
+         Chunk::Delete(pc);
+      }
+   }
+   fclose(f);
+   return(0);
+} // listops_run
 
 } // namespace verif
 
